@@ -303,3 +303,50 @@ elif which=='openstring-helper':
 	}''','''	if open := p.l.OpenString(); open {
 		p.continuationNeeded = open
 	}''')
+elif which=='typeequal-switch':
+    sub('object/object.go','''	return a == b || (IsIntType(a) && IsIntType(b))''','''	if a == b {
+		return true
+	}
+	return IsIntType(a) && IsIntType(b)''')
+elif which=='record-early':
+    sub('object/state.go','''	if t == FUNC {
+		ids.Insert(key + "(")
+	} else {
+		ids.Insert(key + " ")
+	}
+	ids.Insert(key)
+}''','''	ids.Insert(key)
+	suffix := " "
+	if t == FUNC {
+		suffix = "("
+	}
+	ids.Insert(key + suffix)
+}''')
+elif which=='saveglobals-helper':
+    sub('object/state.go','''				_, err := fmt.Fprintf(to, "%s\\n", f.Inspect())
+				if err != nil {
+					return n, err
+				}''','''				if err := writeLine(to, f.Inspect()); err != nil {
+					return n, err
+				}''')
+    sub('object/state.go','''func (e *Environment) SaveGlobals(to io.Writer, maxValueLen int) (int, error) {''','''func writeLine(to io.Writer, line string) error {
+	_, err := fmt.Fprintf(to, "%s\\n", line)
+	return err
+}
+
+func (e *Environment) SaveGlobals(to io.Writer, maxValueLen int) (int, error) {''')
+elif which=='elseif-len':
+    sub('ast/ast.go','''	if len(ie.Alternative.Statements) == 1 && ie.Alternative.Statements[0].Value().Type() == token.IF {''','''	alt := ie.Alternative.Statements
+	if len(alt) == 1 && alt[0].Value().Type() == token.IF {''')
+    sub('ast/ast.go','''		ie.Alternative.Statements[0].PrettyPrint(out)
+		return''','''		alt[0].PrettyPrint(out)
+		return''')
+elif which=='inttest-helper':
+    sub('eval/eval.go','''	case object.INTEGER:
+		value := right.(object.Integer).Value
+		return object.Integer{Value: -value}
+	case object.REGISTER:
+		value := right.(*object.Register).Int64()
+		return object.Integer{Value: -value}''','''	case object.INTEGER, object.REGISTER:
+		value, _ := Int64Value(right)
+		return object.Integer{Value: -value}''')
